@@ -123,3 +123,42 @@ def sample_valid_encodings(seed: int, count: int, pres: Sequence[Optional[int]] 
             break
         _ = ok
     return out, filtered
+
+
+# ---------------------------------------------------------------------------------------------------------------
+# Landmark operand values: whole-operand values that are architecturally special or coupled to the instruction's own
+# address.  Hash tails and boundary *bytes* essentially never produce them (a 16-bit operand equal to the address of
+# the following instruction has probability 2^-16), yet code tends to special-case exactly these.
+FIXED_LANDMARKS: Tuple[int, ...] = (
+    0x00000, 0x00001, 0x000FF, 0x00100, 0x0FFFF, 0x10000, 0x7FFFF, 0x80000, 0xFFFFF,
+    0x02000, 0x0A000, 0x40000, 0x90000, 0xB8000, 0xC0000, 0xE0000,      # LCD windows, card, section bases, mirror, ROM
+    0xFFFFA, 0xFFFFD, 0xFFFFC, 0xFFFFB,                                  # interrupt / reset vectors and neighbours
+    0x100000, 0x1000EC, 0x1000F0, 0x1000FB, 0x1000FF,                    # internal window: start, BP, KOL, IMR, last
+)
+
+
+def landmark_values(addr: int) -> List[Tuple[str, int]]:
+    """(tag, value): fixed landmarks plus values derived from the instruction's own address."""
+    out = [(f"fixed:{v:05X}", v) for v in FIXED_LANDMARKS]
+    out.append(("self", addr))
+    out.append(("self-1", (addr - 1) & 0xFFFFFF))
+    for k in range(1, 8):
+        out.append((f"self+{k}", (addr + k) & 0xFFFFFF))
+    out.append(("self^page", addr ^ 0x10000))
+    return out
+
+
+def landmark_buffers(pre: Optional[int], op: int, addr: int, seed: int) -> List[Tuple[str, bytes]]:
+    """Buffers for one (pre, opcode): every landmark value little-endian right after the opcode, and right after each of
+    up to two decoder-accepted second bytes; remaining bytes from the hash."""
+    p = bytes([pre]) if pre is not None else b""
+    out: List[Tuple[str, bytes]] = []
+    vb = valid_b2(op)
+    picks = [vb[mix32(seed, op, j) % len(vb)] for j in range(2)] if vb else []
+    for tag, v in landmark_values(addr):
+        le = bytes([v & 0xFF, (v >> 8) & 0xFF, (v >> 16) & 0xFF])
+        fill = bytes(mix32(seed, op, v, j) & 0xFF for j in range(3))
+        out.append((tag + "@0", p + bytes([op]) + le + fill))
+        for b2 in picks:
+            out.append((tag + "@1", p + bytes([op, b2]) + le + fill[:2]))
+    return out
